@@ -72,6 +72,10 @@ def pushtoken(token, tokens):
     return itertools.chain([token], tokens)
 
 
+# an escape (backslash and the escaped character) or a single other character
+_escape_or_char = re.compile(r'\\.|.', re.S).findall
+
+
 def string(value):
     """
     Serialize value with quotes e.g.::
@@ -86,8 +90,9 @@ def string(value):
         .replace('"', '\\"')
     )
 
-    if value.endswith('\\'):
-        value = value[:-1] + '\\\\'
+    if (len(value) - len(value.rstrip('\\'))) % 2:
+        # a single backslash at the end (not an escaped backslash)
+        value += '\\'
 
     return '"%s"' % value
 
@@ -98,8 +103,15 @@ def stringvalue(string):
     quotes inside the value are resolved, e.g.::
 
         ``'a \'string'`` => ``a 'string``
+
+    Any other escape is kept as it is, e.g. an escaped backslash (which is
+    not the start of an escaped quote).
     """
-    return string.replace('\\' + string[0], string[0])[1:-1]
+    quote = string[0]
+    return ''.join(
+        quote if part == '\\' + quote else part
+        for part in _escape_or_char(string[1:-1])
+    )
 
 
 _match_forbidden_in_uri = re.compile(r'''.*?[\(\)\s\;,'"]''', re.U).match
